@@ -136,13 +136,15 @@ class SimClock:
     counter that jumps ahead at each read.  sempler has no timer; code that lets a clock leak
     into a seeded result is exposed because the jump makes any two reads differ."""
 
-    def __init__(self, start):
+    def __init__(self, start, frozen=False):
         self.t = float(start)
         self.reads = 0
+        self.frozen = frozen      # a coarse clock: every read within the run returns the same instant
 
     def _tick(self):
         self.reads += 1
-        self.t += 1000.003
+        if not self.frozen:
+            self.t += 1000.003
         return self.t
 
     def install(self):
@@ -158,9 +160,9 @@ class SimClock:
 CLOCK = None
 
 
-def install_clock(start):
+def install_clock(start, frozen=False):
     global CLOCK
-    CLOCK = SimClock(start)
+    CLOCK = SimClock(start, frozen)
     CLOCK.install()
     return CLOCK
 
